@@ -47,6 +47,8 @@ class CuckooWorld(Scenario):
             "fanout": rng.chance(2, 3),
             "fault_free": rng.chance(1, 8),
             "steps": rng.between(5, self.max_steps),
+            # sized by error rate (init_error_rate / load_error_rate / frombytes(error_rate=)) instead of by bytes
+            "error_rate": rng.choice((0.2, 0.05, 0.01, 0.001, 1e-05)) if rng.chance(1, 4) else None,
         }
         if cfg["fault_free"]:
             # fault-free configuration: a table large enough that no insertion needs a kick
@@ -99,12 +101,20 @@ class CuckooWorld(Scenario):
         self.sr = seams.install_simrandom()
         self.hf = seams.make_single_hash(cfg["hash"], cfg["hseed"], 64)
         self.cls = CountingCuckooFilter if self.counting else CuckooFilter
-        self.f = self.cls(
-            capacity=cfg["capacity"], bucket_size=cfg["bucket_size"], max_swaps=cfg["max_swaps"],
-            expansion_rate=cfg["expansion_rate"], auto_expand=cfg["auto_expand"], finger_size=cfg["finger_size"],
-            hash_function=self.hf,
-        )
-        self.mask = (1 << (8 * cfg["finger_size"])) - 1
+        if cfg.get("error_rate"):
+            self.f = self.cls.init_error_rate(
+                cfg["error_rate"], capacity=cfg["capacity"], bucket_size=cfg["bucket_size"], max_swaps=cfg["max_swaps"],
+                expansion_rate=cfg["expansion_rate"], auto_expand=cfg["auto_expand"], hash_function=self.hf,
+            )
+            self.mask = (1 << self.f.fingerprint_size_bits) - 1
+            self.ctx.probe("sized_by_error_rate")
+        else:
+            self.f = self.cls(
+                capacity=cfg["capacity"], bucket_size=cfg["bucket_size"], max_swaps=cfg["max_swaps"],
+                expansion_rate=cfg["expansion_rate"], auto_expand=cfg["auto_expand"], finger_size=cfg["finger_size"],
+                hash_function=self.hf,
+            )
+            self.mask = (1 << (8 * cfg["finger_size"])) - 1
         self.model = {}  # fp -> count (plain: always 1)
         self.fp_key = {}  # fp -> first key index seen with it
         self.key_fp_cache = {}
@@ -316,6 +326,10 @@ class CuckooWorld(Scenario):
             c = dict(cfg)
             c["hash"] = "default"
             yield c
+        if cfg.get("error_rate"):
+            c = dict(cfg)
+            c["error_rate"] = None
+            yield c
 
 
 # ---------------------------------------------------------------------- restart (export -> load) for world K
@@ -342,6 +356,14 @@ def cuckoo_load(world, payload, path, chan):
     """Load through the class's own loader, re-supplying only what the format does not store."""
     cfg = world.cfg
     cls = world.cls
+    if cfg.get("error_rate"):
+        if chan == "path":
+            g = cls.load_error_rate(cfg["error_rate"], path, hash_function=world.hf)
+        else:
+            g = cls.frombytes(payload, error_rate=cfg["error_rate"], hash_function=world.hf)
+        g.expansion_rate = cfg["expansion_rate"]
+        g.auto_expand = cfg["auto_expand"]
+        return g
     if chan == "path":
         g = cls(filepath=path, finger_size=cfg["finger_size"], expansion_rate=cfg["expansion_rate"],
                 auto_expand=cfg["auto_expand"], hash_function=world.hf)
